@@ -61,7 +61,10 @@ pub fn setup(rng: &mut Rng, o: &CaseOpts, id: u64) -> Vec<String> {
     let n = 24 + rng.below(24) as u16;
     let start = pc.wrapping_sub(rng.below(6) as u16);
     let mut line = format!("sim rawmem {}", hex16(start));
-    for _ in 0..n { let w = instr(rng, o.prof); line.push(' '); line.push_str(&cell(w, init_mask(rng))); }
+    let mut jsr_targets: Vec<u16> = vec![];
+    for k in 0..n { let w = instr(rng, o.prof); line.push(' '); line.push_str(&cell(w, init_mask(rng)));
+        // JSR with an 11-bit offset: remember where it lands (signatures are registered there below)
+        if w >> 11 == 0b01001 { let off = (((w & 0x7FF) << 5) as i16) >> 5; jsr_targets.push(start.wrapping_add(k).wrapping_add(1).wrapping_add(off as u16)); } }
     v.push(line);
     // scattered data
     for _ in 0..rng.below(8) {
@@ -72,7 +75,7 @@ pub fn setup(rng: &mut Rng, o: &CaseOpts, id: u64) -> Vec<String> {
     }
     // registers
     for r in 0..8 {
-        let d = if r == 6 { *rng.pick(&[0x3000u16, 0x2FF0, 0xFE00, 0x0000, 0x0001, 0x3001, 0xF000, 0x2FFF]) } else if rng.chance(2, 3) { baddr(rng) } else { rng.u16() };
+        let d = if r == 6 { *rng.pick(&[0x3000u16, 0x2FF0, 0xFE00, 0x0000, 0x0001, 0x3001, 0xF000, 0x2FFF, 0xFFFD, 0xFFFF, 0xFFFA, 0xFFF9]) } else if rng.chance(2, 3) { baddr(rng) } else { rng.u16() };
         let i = if o.strict || o.prof == Prof::Wild { match rng.below(6) { 0 => 0, 1 => rng.u16(), _ => 0xFFFF } } else if rng.chance(1, 8) { 0 } else { 0xFFFF };
         v.push(format!("sim rawreg {} {} {}", r, hex16(d), hex16(i)));
     }
@@ -96,8 +99,11 @@ pub fn setup(rng: &mut Rng, o: &CaseOpts, id: u64) -> Vec<String> {
     }
     if rng.chance(1, 6) { v.push("sim hostwrite fe00 4000 ffff 1 0 0 0".into()); } // keyboard interrupts on
     if o.dbg {
-        for _ in 0..rng.below(3) {
-            let a = if rng.bool() { pc.wrapping_add(rng.below(30) as u16) } else { baddr(rng) };
+        // the frame-stack profile registers more signatures, close to the code, so that calls do land on them
+        let nsig = if o.prof == Prof::Frames { 2 + rng.below(6) } else { rng.below(3) };
+        for _ in 0..nsig {
+            let a = if o.prof == Prof::Frames && !jsr_targets.is_empty() && rng.chance(2, 3) { *rng.pick(&jsr_targets) }
+                else if rng.bool() || o.prof == Prof::Frames { pc.wrapping_add(rng.below(30) as u16) } else { baddr(rng) };
             if rng.bool() { v.push(format!("sim srdef {} cc {}", hex16(a), rng.below(4))); }
             else { let k = rng.below(3); let rs: Vec<String> = (0..k).map(|_| rng.below(8).to_string()).collect(); v.push(format!("sim srdef {} pbr {}", hex16(a), if rs.is_empty() { "-".to_string() } else { rs.join(",") })); }
         }
